@@ -247,8 +247,15 @@ def strip_map(rho):
 
 
 def strip_map_reference(rho, s_nodes):
-    """(g(s_i), g'(s_i)) with the derivative computed numerically; at s = +-1 (where arcsin is singular)
-    g'(+-1) = lim G'(u)/cos(u) = -G''(pi/2)/C is obtained from the numerically differentiated G."""
+    """(g(s_i), g'(s_i)) at EVERY node, the derivative being computed numerically.
+
+    g(s) = G(arcsin s)/C.  Away from the ends g' = mp.diff(g, s).  Within 1e-4 of s = +-1, where arcsin has a
+    square-root singularity (a finite-difference stencil in s would leave [-1,1]), the chain rule through the
+    regular variable u = arcsin(s) is used:  g'(s) = G'(u) / cos(u) / C  with G' = mp.diff(G, u) and
+    cos(u) = sqrt((1-s)(1+s)) evaluated exactly from the float node (30 digits: accurate for 1-|s| down to one ulp).
+    At s = +-1 exactly the limit  -G''(pi/2)/C  (second numerical derivative).  The two branches are compared in
+    the self-test.
+    """
     with mp.workdps(DPS):
         tau, d, G, C = _strip_parts(rho)
         g = lambda s: G(mp.asin(s)) / C  # noqa: E731
@@ -257,8 +264,11 @@ def strip_map_reference(rho, s_nodes):
         for s in s_nodes:
             s = _mpf(s)
             xs.append(float(g(s)))
-            if abs(abs(s) - 1) < mp.mpf(10) ** -12:
+            dist = 1 - abs(s)
+            if dist == 0:
                 ds.append(float(end))
+            elif dist < mp.mpf(10) ** -4:
+                ds.append(float(mp.diff(G, mp.asin(s)) / mp.sqrt((1 - s) * (1 + s)) / C))
             else:
                 ds.append(float(mp.diff(g, s)))
     return np.array(xs), np.array(ds)
@@ -396,9 +406,16 @@ def self_test():
             if max(ims) - min(ims) > 1e-20 or ims[0] <= 0:
                 raise AssertionError(f"strip map does not send the rho-ellipse to a horizontal line (rho={rho}): {ims}")
             # end derivative: limit of interior derivative
-            _, dd = strip_map_reference(rho, [1.0, 1 - 1e-9])
-            if abs(dd[0] - dd[1]) > 1e-6 * abs(dd[0]):
+            _, dd = strip_map_reference(rho, [1.0, 1 - 2.0**-53, 1 - 1e-15])
+            if abs(dd[0] - dd[1]) > 1e-5 * abs(dd[0]) or abs(dd[0] - dd[2]) > 1e-5 * abs(dd[0]):
                 raise AssertionError("strip end derivative")
+            # chain-rule branch (|s| within 1e-4 of 1) against plain numerical differentiation in s
+            g = strip_map(rho)
+            for sv in (1 - 3e-5, -1 + 7e-7, 1 - 1e-9):
+                a1 = strip_map_reference(rho, [sv])[1][0]
+                a2 = float(mp.diff(g, _mpf(sv)))
+                if abs(a1 - a2) > 1e-12 * abs(a2):
+                    raise AssertionError(f"strip derivative branches disagree at s={sv}, rho={rho}: {a1} {a2}")
     # 4b. Fejer-2 definition: the full series is exact to degree n-1, the series minus its last term is not
     for n in (2, 3, 6, 7, 40, 41):
         xf, wf = fejer2_series_weights(n)
